@@ -229,7 +229,11 @@ def extract_dataframe(
     point_dataset = extract_points(
         dataset, points, point_dimension=point_dimension,
         missing_points='error' if missing_points == 'error' else 'drop')
-    coord_dataset = _dataframe_to_dataset(dataframe, dimension_name=point_dimension)
+    # Rows are paired with the extracted points by position:
+    # extract_points labels each point with its position in the list,
+    # so the table must be labelled 0..n-1 as well, whatever index the caller's dataframe carries.
+    coord_dataset = _dataframe_to_dataset(
+        dataframe.reset_index(drop=True), dimension_name=point_dimension)
 
     # Merge in the dataframe
     join: Literal['outer', 'inner'] = 'outer' if missing_points == 'fill' else 'inner'
